@@ -152,9 +152,10 @@ async def run_in_process(
                 )
                 initializer = partial(_call_all, logging_initializer, initializer)
 
-            with ProcessPoolExecutor(
+            executor = ProcessPoolExecutor(
                 max_workers=1, mp_context=mp_context, initializer=initializer
-            ) as executor:
+            )
+            try:
                 loop = asyncio.get_running_loop()
                 future = loop.run_in_executor(executor, func)
                 process = list(executor._processes.values())[0]
@@ -169,6 +170,11 @@ async def run_in_process(
                     pass
                 except BaseException as e:
                     exc = e
+            finally:
+                # Wait for the process to exit in a thread. The process might
+                # not exit while the event loop is blocked, e.g., if it still
+                # has logging records to send, which are received in a task.
+                await asyncio.to_thread(executor.shutdown)
         return ret, exc
 
     task = asyncio.create_task(_run())
